@@ -459,6 +459,7 @@ def run(ctx):
     from . import C17
     C17.r6_target_derivation(ctx)    # the HTTP front-end: which host:port a request names (absolute form, Host header, default ports)
     C17.r7_parsing_totality(ctx)
+    C17.r3b_scan_window(ctx)         # the head of an HTTP request is recognised wherever the reads cut it, so that its destination is extracted at all
     r1_port_dependence(ctx)
     r2_byte_order(ctx)
     r3_atyp_tables(ctx)
